@@ -164,7 +164,11 @@ def _convolve_model_dir_2(model_dir, filters, overwrite=False, memmap=True):
 
         for i, f in enumerate(binned_filters):
 
-            response = f.response.astype(sed_val.dtype)
+            # The products below are formed in double precision: a cube stored
+            # in single precision and in a unit with small numbers (e.g.
+            # ergs/cm^2/s/Hz) otherwise loses the squares of its uncertainties,
+            # and the faint end of its fluxes, to underflow.
+            response = f.response
 
             # val_factor/unc_factor convert the bare values to mJy (multiplying
             # the Quantity by the factor and assigning it to an array in mJy
